@@ -168,18 +168,23 @@ class SgzCropper(SgzReader):
                                                                                                   xline_index_range,
                                                                                                   zslices_index_range)
 
-        z_units = (pad(zslices_index_range[1], self.blockshape[2]) - zslices_index_range[0]) // 4
-        xl_units = (xline_index_range[1] - xline_index_range[0]) // 4
-        il_units = (iline_index_range[1] - iline_index_range[0]) // 4
+        # Ranges are aligned to blockshape (or end at the edge of the cube, in a partially filled block),
+        # so the cropped file consists of whole disk blocks of the source, whatever the layout.
+        first_block = [index_range[0] // dim for index_range, dim in
+                       zip((iline_index_range, xline_index_range, zslices_index_range), self.blockshape)]
+        n_blocks = [pad(index_range[1], dim) // dim - first for index_range, dim, first in
+                    zip((iline_index_range, xline_index_range, zslices_index_range), self.blockshape, first_block)]
+        block_dims = self.loader.block_dims
 
         header = self.regenerate_header(iline_index_range, xline_index_range, zslices_index_range)
-        compressed_bytes = self.loader.read_chunk_range(iline_index_range[0],
-                                                        xline_index_range[0],
-                                                        zslices_index_range[0],
-                                                        il_units, xl_units, z_units)
         with open(out_file, 'wb') as new_sgz_file:
             new_sgz_file.write(header)
-            new_sgz_file.write(compressed_bytes)
+            for i in range(first_block[0], first_block[0] + n_blocks[0]):
+                for x in range(first_block[1], first_block[1] + n_blocks[1]):
+                    # Blocks are contiguous in the z direction, so do it in one file read
+                    block_id = (i * block_dims[1] + x) * block_dims[2] + first_block[2]
+                    new_sgz_file.write(self.loader._get_compressed_bytes(block_id * self.block_bytes,
+                                                                         n_blocks[2] * self.block_bytes))
 
             self.read_variant_headers()
             for k in self.stored_header_keys:
